@@ -1,5 +1,5 @@
 #!/venv/bin/python
-"""tools/verify_seed.py <PROP> <src-dir> <k> [--no-suite] [--checks C01,C02] [--tier quick]
+"""tools/verify_seed.py <PROP> <src-dir> <k> [--no-suite] [--checks C01,C02] [--tier quick] [--dest <k'>]
 
 Confirms a seeded change (made by an independent sub-agent) in a scratch
 worktree of /repo and files it under /verif/seeded/<PROP>-<k>/:
@@ -33,16 +33,23 @@ def sh(cmd, cwd=None, env=None, timeout=3600):
 
 
 def main():
-    args = [a for a in sys.argv[1:] if not a.startswith("--")]
+    argv = list(sys.argv[1:])
+    for opt in ("--checks", "--tier", "--dest"):
+        if opt in argv:
+            del argv[argv.index(opt) + 1]
+    args = [a for a in argv if not a.startswith("--")]
     prop, src, k = args[0], Path(args[1]), args[2]
     no_suite = "--no-suite" in sys.argv
     tier = "quick"
     checks = [prop]
+    dest_k = None
     for i, a in enumerate(sys.argv):
         if a == "--checks":
             checks = sys.argv[i + 1].split(",")
         if a == "--tier":
             tier = sys.argv[i + 1]
+        if a == "--dest":
+            dest_k = sys.argv[i + 1]
     patch = src / f"patch{k}.diff"
     demo = src / f"demo{k}.py"
     meta_in = src / f"meta{k}.json"
@@ -55,7 +62,7 @@ def main():
         # the demo may mention the agent's own worktree path; point it at ours
         demo_text = demo.read_text()
         demo_local = tmp / "demo.py"
-        demo_local.write_text(re.sub(r"/tmp/seed/[A-Z0-9]+/wt", str(wt), demo_text))
+        demo_local.write_text(re.sub(r"/tmp/seed2?/[A-Z0-9]+/wt", str(wt), demo_text))
         rc0, out0, _ = sh(f"/venv/bin/python {demo_local}", cwd=wt, env=env, timeout=600)
         result["demo_pristine_rc"] = rc0
         rc, out, _ = sh(f"git apply {patch}", cwd=wt)
@@ -89,7 +96,7 @@ def main():
         detected = any(v["rc"] == 1 for v in result["checks"].values())
         result["detected"] = detected
         # file it
-        dest = ROOT / "seeded" / f"{prop}-{k}"
+        dest = ROOT / "seeded" / f"{prop}-{dest_k or k}"
         valid = rc0 == 0 and rc1 != 0 and (no_suite or result.get("suite_ok"))
         result["valid_seed"] = bool(valid)
         if valid:
